@@ -14,6 +14,8 @@ import (
 
 // C16: a message written through the client arrives intact at a go-smtp backend.
 
+const c16Second = ".second\r\n..\r\nend\r\n"
+
 type C16Case struct {
 	LMTP   bool   `json:"lmtp"`
 	Body   []byte `json:"body"`
@@ -96,6 +98,25 @@ func evalC16(c C16Case) *h.Finding {
 				f = h.F("c16-out-of-step", "%s: Noop after the transfer failed: %v", desc, err)
 				return
 			}
+			// a second message on the same connection, to another recipient
+			if err := cl.Mail("sender2@a.example", nil); err != nil {
+				f = h.F("c16-second-message", "%s: second Mail: %v", desc, err)
+				return
+			}
+			if err := cl.Rcpt("r3@b.example", nil); err != nil {
+				f = h.F("c16-second-message", "%s: second Rcpt: %v", desc, err)
+				return
+			}
+			w2, err := cl.Data()
+			if err != nil {
+				f = h.F("c16-second-message", "%s: second Data: %v", desc, err)
+				return
+			}
+			w2.Write([]byte(c16Second))
+			if cerr2 := w2.Close(); (cerr2 != nil) != c.Reject {
+				f = h.F("c16-second-message", "%s: Close of the second message returned %v", desc, cerr2)
+				return
+			}
 		})
 	})
 	if f != nil {
@@ -120,13 +141,16 @@ func evalC16(c C16Case) *h.Finding {
 		}
 	}
 	want := ref.DotStuffNormalize(c.Body)
-	if len(data) != 1 {
-		return h.F("c16-data-calls", "%s: %d Data calls", desc, len(data))
+	if len(data) != 2 {
+		return h.F("c16-data-calls", "%s: %d Data calls, want 2", desc, len(data))
+	}
+	if string(data[1].Body) != c16Second || data[1].ReadErr != "EOF" || strings.Join(data[1].Rcpts, ",") != "r3@b.example" || data[1].From != "sender2@a.example" {
+		return h.F("c16-second-message", "%s: the second message arrived as from=%q rcpts=%v body=%q (%s)", desc, data[1].From, data[1].Rcpts, data[1].Body, data[1].ReadErr)
 	}
 	if !bytes.Equal(data[0].Body, want) || data[0].ReadErr != "EOF" {
 		return h.F("c16-body-differs", "%s: backend read %q (%s), want %q", desc, data[0].Body, data[0].ReadErr, want)
 	}
-	if strings.Join(mails, ",") != from || strings.Join(rc, ",") != strings.Join(rcpts, ",") {
+	if strings.Join(mails, ",") != from+",sender2@a.example" || strings.Join(rc, ",") != strings.Join(rcpts, ",")+",r3@b.example" {
 		return h.F("c16-envelope", "%s: backend envelope from=%v rcpts=%v", desc, mails, rc)
 	}
 	return nil
